@@ -32,7 +32,7 @@ ASSUMPTIONS = [
 def program_list(tier):
     out = []
     seen = set()
-    for nm in ('X', 'a1'):
+    for nm in ('X', 'a1', '_u'):   # (a name with a leading underscore is addressed through another code path in the generated code)
         for kind, sp in programs.S1_KINDS[:3]:
             for off, form in programs.S1_IDX:
                 for ctx in ('PH0', '2 * PH0 - 1'):
